@@ -629,6 +629,14 @@ class DBusObject :
         if p.iprop.access not in ('write', 'readwrite'):
             raise Exception('Property is not Writeable')
 
+        try:
+            # the value has to be one of the declared type: what is stored
+            # is what Get, GetAll and PropertiesChanged send out later
+            marshal.marshal(p.iprop.sig, [value])
+        except Exception:
+            raise Exception(
+                'Wrong type for property (expected %s)' % (p.iprop.sig,))
+
         return setattr(self, p.attr_name, value)
 
     @dbusMethod('org.freedesktop.DBus.Properties', 'GetAll')
